@@ -606,8 +606,11 @@ class MeiParser(object):
                     1,
                 )  # if no tuplet modifier, set one that does not change the duration
             duration = (divs * 4 * tuplet_mod[0]) / (intsymdur * tuplet_mod[1])
+            # each dot adds half of what the previous one added
+            dot_value = duration
             for d in range(dots):
-                duration = duration + 0.5 * duration
+                dot_value = 0.5 * dot_value
+                duration = duration + dot_value
             # sanity check to verify the divs are correctly set
             assert duration == int(duration)
 
